@@ -21,6 +21,10 @@ Conventions (those of the C14 model, which is reused for `gcd`, `lcm` and the in
   `common_type`) are evaluated in `intmax_t` with the same overflow rule: an overflow there is a
   compile-time error of the real program.
 
+The free functions of [time.duration.nonmember] (`d * s`, `s * d`, `d / s`, `d % s`) and [time.point.nonmember]
+(`tp + d`, `d + tp`, `tp - d`, `tp - tp`) are modelled as declared in duration.hpp / time_point.hpp; a `time_point` is its
+`time_since_epoch()`.
+
 "The model never returns `.error`" on the documented domain is the statement that no result depends
 on overflow (the C02 face of the property).  The four `duration_cast_impl::cast` bodies are modelled
 by hand (the translator gen/translate.py handles non-template functions only).
